@@ -9,6 +9,9 @@ THEOREMS = ["Props.C12.c12_roundtrip", "Props.C12.c12_pieces_shape", "Props.C12.
 
 
 def run(check, tier):
+    import tie_common
+
+    tie_common.run_pyops(check, tier)      # the translator's prelude against CPython (the heap-mode bridges are written against it)
     import paths_suite as S
 
     n = 800 if tier == "quick" else 8000
